@@ -1,7 +1,7 @@
 (* Dispatcher for the filesystem-level models. *)
 From Coq Require Import List NArith ZArith Bool Arith String.
 From PyFS Require Import Base.PyStr Base.Outcome Base.Render FS.Tree FS.Monad FS.Mode FS.Base
-     FS.Mem FS.Ops FS.Ref FS.Agree FS.Props.
+     FS.Mem FS.Ops FS.Ref FS.Agree FS.Props FS.Wrap Path.PathSpec.
 Import ListNotations.
 Local Open Scope string_scope. Local Open Scope list_scope.
 
@@ -40,11 +40,43 @@ Definition with_obs (args : list str) (k : node -> node -> bool -> op -> str) : 
   | None => lit "?before"
   end.
 
+(* SubFS at [d] over the MemoryFS model vs the reference on the sub-tree, step by step *)
+Definition sub_agree (d : list str) (obs : node * outcome value) (r : rstep) (s : node) : bool :=
+  res_agree (snd obs) (rs_res r)
+  && match rs_tree r with
+     | Some t' => tree_eqb true (fst obs) (put s d t')
+     | None => true
+     end.
+
+Fixpoint sub_agree_history (d : list str) (s : node) (ops : list op) : list str :=
+  match ops with
+  | [] => []
+  | o :: r =>
+    let obs := subfs_run (to_path true d) o s in
+    let sub := match lookup s d with Some n => n | None => empty_dir end in
+    r_bool (sub_agree d obs (ref_run o sub) s) :: sub_agree_history d (fst obs) r
+  end.
+
+Fixpoint sub_history (d : list str) (s : node) (ops : list op) : list str :=
+  match ops with
+  | [] => []
+  | o :: r =>
+    let '(s', out) := subfs_run (to_path true d) o s in
+    (r_outcome r_value out ++ lit "#" ++ r_tree s') :: sub_history d s' r
+  end.
+
+Definition sub_start : node :=
+  Dir [(lit "top", Dir [(lit "sub", Dir [] None); (lit "canary", File (lit "canary") None)] None)] None.
+
 Definition run_fs2 (name : str) (args : list str) : str :=
   let ops := decode_ops (S (List.length args)) args in
   if str_eqb name (lit "mem") then sep_by (lit " ") (run_history mem_run empty_dir ops)
   else if str_eqb name (lit "ref") then sep_by (lit " ") (ref_history (Some empty_dir) ops)
   else if str_eqb name (lit "agree_mem") then sep_by (lit " ") (agree_history empty_dir ops)
+  else if str_eqb name (lit "agree_sub") then
+    sep_by (lit " ") (sub_agree_history [lit "top"; lit "sub"] sub_start ops)
+  else if str_eqb name (lit "sub") then
+    sep_by (lit " ") (sub_history [lit "top"; lit "sub"] sub_start ops)
   else if str_eqb name (lit "mem_preserved") then
     sep_by (lit " ") (preserved_history empty_dir ops)
   else if str_eqb name (lit "preserved") then
